@@ -96,6 +96,10 @@ fn real_main(args: &[String]) -> i32 {
             runner::install_panic_hook();
             engine::hist::isolate_main()
         }
+        "hist-exec" => {
+            runner::install_panic_hook();
+            engine::hist::hist_exec_main()
+        }
         "field-cover" => {
             // maintenance aid: the parameter sets the field-value coverage search adds
             runner::install_panic_hook();
